@@ -609,6 +609,60 @@ fn valid_cases(rule_names: &[String], _thorough: bool) -> Vec<Case> {
         }
         cases.push(Case { j: obj(kvs), origin: "top-filters".into(), must_reject: None });
     }
+    // the empty rule list is not the default (the default is the 13 default rules): it must survive, under
+    // both key names, with every generator form and top-level filter form
+    for key in ["rules", "process"] {
+        cases.push(Case { j: obj(vec![(key, J::Arr(vec![]))]), origin: "empty-rules".into(), must_reject: None });
+        for g in generator_forms() {
+            cases.push(Case {
+                j: obj(vec![(key, J::Arr(vec![])), ("generator", g.clone())]),
+                origin: "empty-rules+generator".into(),
+                must_reject: None,
+            });
+            cases.push(Case {
+                j: obj(vec![("generator", g), (key, J::Arr(vec![]))]),
+                origin: "empty-rules+generator".into(),
+                must_reject: None,
+            });
+        }
+        for (a, k) in filter_forms() {
+            let mut kvs = vec![(key, J::Arr(vec![]))];
+            if let Some(a) = a {
+                kvs.push(("apply_to_files", a));
+            }
+            if let Some(k) = k {
+                kvs.push(("skip_files", k));
+            }
+            cases.push(Case { j: obj(kvs), origin: "empty-rules+top-filters".into(), must_reject: None });
+        }
+    }
+    // every field whose default is not the empty / zero value, given that empty / zero value explicitly
+    // (a `skip_serializing_if = is_empty / is_zero / not` on such a field loses it)
+    let zero_cases: Vec<(&str, J)> = vec![
+        ("rules: []", obj(vec![("rules", J::Arr(vec![]))])),
+        ("column_span: 0 (dense)", obj(vec![("rules", J::Arr(vec![])), ("generator", obj(vec![("name", s("dense")), ("column_span", J::Num(0))]))])),
+        ("column_span: 0 (readable)", obj(vec![("rules", J::Arr(vec![])), ("generator", obj(vec![("name", s("readable")), ("column_span", J::Num(0))]))])),
+        ("module_folder_name: ''", obj(vec![("rules", J::Arr(vec![])), ("bundle", obj(vec![("require_mode", obj(vec![("name", s("path")), ("module_folder_name", s(""))]))]))])),
+        ("use_luau_configuration: false (path)", obj(vec![("rules", J::Arr(vec![])), ("bundle", obj(vec![("require_mode", obj(vec![("name", s("path")), ("use_luau_configuration", J::Bool(false))]))]))])),
+        ("use_luau_configuration: false (luau)", obj(vec![("rules", J::Arr(vec![])), ("bundle", obj(vec![("require_mode", obj(vec![("name", s("luau")), ("use_luau_configuration", J::Bool(false))]))]))])),
+        ("modules_identifier: ''", obj(vec![("rules", J::Arr(vec![])), ("bundle", obj(vec![("require_mode", s("path")), ("modules_identifier", s(""))]))])),
+        ("preserve_arguments_side_effects: false (assertions)", config_with_rules(vec![obj(vec![("rule", s("remove_assertions")), ("preserve_arguments_side_effects", J::Bool(false))])])),
+        ("preserve_arguments_side_effects: false (profiling)", config_with_rules(vec![obj(vec![("rule", s("remove_debug_profiling")), ("preserve_arguments_side_effects", J::Bool(false))])])),
+        ("detect_globals: false", config_with_rules(vec![obj(vec![("rule", s("rename_variables")), ("detect_globals", J::Bool(false))])])),
+        ("globals: [] (default is $default)", config_with_rules(vec![obj(vec![("rule", s("rename_variables")), ("globals", J::Arr(vec![]))])])),
+        ("text: ''", config_with_rules(vec![obj(vec![("rule", s("append_text_comment")), ("text", s(""))])])),
+        ("identifier: ''", config_with_rules(vec![obj(vec![("rule", s("inject_global_value")), ("identifier", s(""))])])),
+        ("value: 0 / false / '' / null / []", config_with_rules(vec![
+            obj(vec![("rule", s("inject_global_value")), ("identifier", s("VALUE")), ("value", J::Num(0))]),
+            obj(vec![("rule", s("inject_global_value")), ("identifier", s("A")), ("value", J::Bool(false))]),
+            obj(vec![("rule", s("inject_global_value")), ("identifier", s("B")), ("value", s(""))]),
+            obj(vec![("rule", s("inject_global_value")), ("identifier", s("C")), ("value", J::Null)]),
+            obj(vec![("rule", s("inject_global_value")), ("identifier", s("D")), ("value", J::Arr(vec![]))]),
+        ])),
+    ];
+    for (what, j) in zero_cases {
+        cases.push(Case { j, origin: format!("zero-value {}", what), must_reject: None });
+    }
     cases.push(Case { j: obj(vec![]), origin: "empty".into(), must_reject: None });
     cases
 }
@@ -1220,6 +1274,9 @@ fn probe_sensitivity(report: &mut Report) {
         ("{rules:[{rule:'append_text_comment', text:'hi'}]}", "{rules:[{rule:'append_text_comment', text:'hi', location:'end'}]}"),
         ("{rules:[{rule:'append_text_comment', text:'hi'}]}", "{rules:[{rule:'append_text_comment', file:'note.txt'}]}"),
         ("{rules:[{rule:'convert_require', current:'path', target:'luau'}]}", "{rules:[{rule:'convert_require', current:'path', target:'roblox'}]}"),
+        ("{rules:[]}", "{}"),
+        ("{process:[]}", "{process:['remove_empty_do']}"),
+        ("{rules:[], bundle:{require_mode:'path'}}", "{rules:[], bundle:{require_mode:{name:'path', module_folder_name:''}}}"),
         ("{rules:[]}", "{rules:[], generator:'dense'}"),
         ("{rules:[], generator:'dense'}", "{rules:[], generator:'readable'}"),
         ("{rules:[], generator:'dense'}", "{rules:[], generator:{name:'dense', column_span:20}}"),
